@@ -4,13 +4,17 @@
 //                      emits the same "<request> = <response>" lines for every path of exactly <npts> points over the
 //                      LxL lattice whose enumeration index is congruent to <shard> mod <nshards>;
 //                      <what> is a string of letters: T trim (open+closed), S simplify (eps grid x open/closed), R rdp (eps grid),
-//                      s simplify with the two-value grid {0.5, 2} x open/closed (quick tier, 5-point paths).
+//                      s simplify with the two-value grid {0.5, 2} x open/closed (quick tier, 5-point paths),
+//                      N StripNearEqual (max_dist_sqrd in {0,1,2,3,5,10} x open/closed) and StripDuplicates (open/closed).
 // Requests (integers decimal, doubles C99 hex floats, <path> = n x y x y ...):
 //   TRIM o <path>            -> <path out> <path TrimCollinear(out,o)>
 //   SIMP eps c <path>        -> <path>
 //   RDP eps <path>           -> <path> <n> f0 f1 ...      (flags of a direct RDP() call set up as in RamerDouglasPeucker)
 //   SDUP c <path>            -> <path>
 //   SNEAR d c <path>         -> <path>
+//   SNEARD d c <pathd>       -> <pathd>                    (StripNearEqual<double>; points as hex floats)
+//   SNEARS d c <paths>       -> <paths>                    (Paths64 overload)     SNEARSD d c <pathsd> -> <pathsd>
+//   SDUPS c <paths>          -> <paths>                    (StripDuplicates, Paths64 overload)
 //   BOUNDS <path>            -> left top right bottom
 //   TRANS dx dy <path>       -> <path>
 //   LEN c <path>             -> double
@@ -64,6 +68,10 @@ static void handle(Toks& t, std::ostream& os) {
   else if (cmd == "RDP") { double eps = t.dbl(); Path64 p = t.path(); do_rdp(os, p, eps); }
   else if (cmd == "SDUP") { bool c = t.b(); Path64 p = t.path(); StripDuplicates<int64_t>(p, c); put(os, p); }
   else if (cmd == "SNEAR") { double d = t.dbl(); bool c = t.b(); Path64 p = t.path(); put(os, StripNearEqual<int64_t>(p, d, c)); }
+  else if (cmd == "SNEARD") { double d = t.dbl(); bool c = t.b(); PathD p = t.pathd(); put(os, StripNearEqual<double>(p, d, c)); }
+  else if (cmd == "SNEARS") { double d = t.dbl(); bool c = t.b(); Paths64 ps = t.paths(); put(os, StripNearEqual<int64_t>(ps, d, c)); }
+  else if (cmd == "SNEARSD") { double d = t.dbl(); bool c = t.b(); PathsD ps = t.pathsd(); put(os, StripNearEqual<double>(ps, d, c)); }
+  else if (cmd == "SDUPS") { bool c = t.b(); Paths64 ps = t.paths(); StripDuplicates<int64_t>(ps, c); put(os, ps); }
   else if (cmd == "BOUNDS") { Path64 p = t.path(); Rect64 r = GetBounds(p); os << r.left << ' ' << r.top << ' ' << r.right << ' ' << r.bottom; }
   else if (cmd == "TRANS") { int64_t dx = t.i64(); int64_t dy = t.i64(); Path64 p = t.path(); put(os, TranslatePath(p, dx, dy)); }
   else if (cmd == "LEN") { bool c = t.b(); Path64 p = t.path(); os << hexd(Length<int64_t>(p, c)); }
@@ -122,6 +130,14 @@ static int enum_mode(int argc, char** argv) {
       } else if (w == 's') {
         for (double eps : {0.5, 2.0}) for (int c = 0; c < 2; ++c) {
           std::ostringstream os; os << "SIMP " << hexd(eps) << ' ' << c << ' ' << pathstr << " = "; do_simp(os, p, eps, c != 0); std::cout << os.str() << '\n';
+        }
+      } else if (w == 'N') {
+        for (double d : {0.0, 1.0, 2.0, 3.0, 5.0, 10.0}) for (int c = 0; c < 2; ++c) {
+          std::ostringstream os; os << "SNEAR " << hexd(d) << ' ' << c << ' ' << pathstr << " = "; put(os, StripNearEqual<int64_t>(p, d, c != 0)); std::cout << os.str() << '\n';
+        }
+        for (int c = 0; c < 2; ++c) {
+          Path64 q = p; StripDuplicates<int64_t>(q, c != 0);
+          std::ostringstream os; os << "SDUP " << c << ' ' << pathstr << " = "; put(os, q); std::cout << os.str() << '\n';
         }
       } else if (w == 'R') {
         for (double eps : EPS_GRID) {
